@@ -85,8 +85,9 @@ def judge(c, rec, Mismatch):
         # a crossing that floating point cannot place better than a fraction eps of the
         # segment (segment nearly parallel to the grid line it crosses) may be put just
         # outside the segment: at most 2 eps of the length is then covered twice
-        ctol = 2 * gw.crossing_noise(c.lats[s], c.lons[s], c.lats[s + 1], c.lons[s + 1]) \
-            if len(pcs) >= 2 else 0.0
+        # (since repository fix 52e2074 crossings are kept on their segment, so nothing is
+        # covered twice any more: no allowance)
+        ctol = 0.0
         is_cross = c.cross_seg == s
         det = {'segment': s, 'from_deg': [math.degrees(c.lats[s]), math.degrees(c.lons[s])],
                'to_deg': [math.degrees(c.lats[s + 1]), math.degrees(c.lons[s + 1])],
